@@ -313,6 +313,21 @@ def cmdErase : Nat → St α → List (Tok α) → Except Err (St α × List (To
         | .ok r' => if isEos r' then .ok (s1, r') else cmdErase fuel s1 r')
     | _ => .error (.syntax "error in DIM command")
 
+/-- where the next READ item is: `cmdread`'s search. After a previous READ the pointer sits behind the expression it
+consumed: a comma there means "next item of the same DATA statement"; otherwise (and at the start, from the first
+line) the stream is searched forward for the first DATA token that is followed by an item. -/
+def dataPos (s : St α) : Except Err (Option Nat × List (Tok α)) :=
+  let start : Except Err (Option Nat × List (Tok α)) := match s.dataline with
+    | none => if s.lines.isEmpty then .error .outOfData else .ok (some 0, lineToks s 0)
+    | some i => .ok (some i, s.datatok)
+  match start with
+  | .error e => .error e
+  | .ok (dl, dt) =>
+    if headIs dt .comma then .ok (dl, dt.drop 1)
+    else match scanStream dataStep () (streamFrom s dl dt) with
+      | none => .error .outOfData
+      | some p => .ok p
+
 /-- `cmdread` -/
 def cmdRead (hook : Hook α) : Nat → St α → List (Tok α) → Except Err (St α × List (Tok α))
   | 0, _, _ => .error .fuel
@@ -320,18 +335,10 @@ def cmdRead (hook : Hook α) : Nat → St α → List (Tok α) → Except Err (S
     match varRefAt hook t s with
     | .error e => .error e
     | .ok (name, tok, s1) =>
-      -- position in the data
-      let start : Except Err (Option Nat × List (Tok α)) := match s1.dataline with
-        | none => if s1.lines.isEmpty then .error .outOfData else .ok (some 0, lineToks s1 0)
-        | some i => .ok (some i, s1.datatok)
-      match start with
+      match dataPos s1 with
       | .error e => .error e
       | .ok (dl, dt) =>
-        let pos : Except Err (Option Nat × List (Tok α)) :=
-          if headIs dt .comma then .ok (dl, dt.drop 1)
-          else match scanStream dataStep () (streamFrom s1 dl dt) with
-            | none => .error .outOfData
-            | some p => .ok p
+        let pos : Except Err (Option Nat × List (Tok α)) := .ok (dl, dt)
         match pos with
         | .error e => .error e
         | .ok (dl1, dt1) =>
@@ -603,6 +610,48 @@ def compileAndRun (hp : Bool) (fuel : Nat) (text : String) : Outcome α :=
     if s0.lines.isEmpty then .done s0
     else runLoop theHook fuel { st := s0, line := some 0, tok := lineToks s0 0 }
   | o => o
+
+/-! ### the four hosts -/
+
+inductive Host where
+  | userPunch | userPrint | rates | calculateValues
+deriving DecidableEq, Repr
+
+/-- what a host delivers for one evaluation of its program -/
+inductive HostOut (α : Type) where
+  | punched (cells : List (Val α))       -- USER_PUNCH: the PUNCH items of the row
+  | printed (text : String)              -- USER_PRINT: the text written to the output
+  | saved (x : α)                        -- RATES / CALCULATE_VALUES: the last SAVE value
+  | basicError                           -- "Fatal Basic error …" / "… not SAVEed …"
+  | noAnswer                             -- reference evaluation out of fuel
+
+/-- observation of a run under a host convention: every host sees a projection of the *same* run -/
+def hostOut (h : Host) : Outcome α → HostOut α
+  | .fuel _ => .noAnswer
+  | .err _ _ => .basicError
+  | .done s => match h with
+    | .userPunch => .punched s.punch.toList
+    | .userPrint => .printed (String.join s.prints.toList ++ (if s.outNewline then "\n" else ""))
+    | .rates | .calculateValues => match s.save with
+      | none => .basicError
+      | some x => if BNum.isNaN x then .basicError else .saved x
+
+/-! ### FOR / NEXT as a function of the three numbers (the control decisions are `forSkips` / `nextContinues`,
+the very functions `execStmt` calls) -/
+
+/-- body executions from the value `v` on: the values the body sees, and the value the variable is left with -/
+def forBody (mx step : α) : Nat → α → List α × α
+  | 0, v => ([], v)
+  | fuel + 1, v =>
+    let v' := BNum.add v step                     -- NEXT: increment, then test
+    if nextContinues v' mx step then
+      let (vs, fin) := forBody mx step fuel v'
+      (v :: vs, fin)
+    else ([v], v')
+
+/-- `FOR var = start TO mx STEP step … NEXT var` whose body leaves `var` alone -/
+def forLoop (start mx step : α) (fuel : Nat) : List α × α :=
+  if forSkips start mx step then ([], start) else forBody mx step fuel start
 
 end Exec
 
